@@ -636,6 +636,69 @@ def m_try_from_int(ip, st, fr, t, args):
     return [(fits, Enum(OK, [Int(conv)])), (bv.M.NOT(fits), Enum(ERR, [Opaque("TryFromIntError")]))]
 
 
+def m_iter_search(ip, st, fr, t, args):
+    """find / position / any / all over a small concrete iterator: the closure body is evaluated on the items in order"""
+    name = (t["callee"]["path"] or "").split("::")[-1]
+    it = args[0]
+    itref = it if isinstance(it, Ref) else None
+    if itref is not None:
+        it = ip.read_loc(st, itref.root, itref.path)
+    if not (isinstance(it, Opaque) and it.tag == "citer"):
+        return None
+    items, pos = it.data
+    items = items[pos:]
+    if len(items) > 32:
+        return None
+    try:
+        cty = ip.types[ip.operand_ty(t["args"][1])]
+    except Exception:
+        return None
+    if cty.get("k") != "closure" or cty.get("path") not in ip.f.bodies:
+        return None
+    ckey = cty["path"]
+    cbody = ip.f.bodies[ckey]
+    envt = ip.types[cbody["locals"][1]["ty"]]
+    clos = args[1]
+    env = clos
+    if envt["k"] == "ref" and not isinstance(clos, Ref):
+        tmp = ("tmpenv", st.count("tmpenv"))
+        st.mem[tmp] = clos
+        env = Ref(tmp, ())
+    by_ref_arg = name == "find"         # find's predicate takes &Item, the others take Item
+
+    def final():
+        if name == "find" or name == "position":
+            return Enum(NONE, [])
+        return Int((1,)) if name == "all" else Int((0,))
+
+    def hit(k):
+        if name == "find":
+            return Enum(SOME, [items[k]])
+        if name == "position":
+            return Enum(SOME, [Int(bv.const(k, 64))])
+        return Int((1,)) if name == "any" else Int((0,))
+
+    def step(k, cond, s_):
+        if k == len(items):
+            return (cond, final())
+        item = items[k]
+        arg = item
+        if by_ref_arg:
+            tmp = ("finditem", s_.count("finditem"))
+            s_.mem[tmp] = item        # (the state that is about to be forked for this call)
+            arg = Ref(tmp, ())
+
+        def transform(st2, ret, k=k):
+            if not isinstance(ret, Int):
+                st2.tag("unknown-callee")
+                return final()
+            b = ret.bits[0]
+            stop_on = b if name != "all" else bv.M.NOT(b)
+            return [(stop_on, hit(k)), step(k + 1, bv.M.NOT(stop_on), st2)]
+        return ("call", cond, ckey, [env, arg], transform, None)
+    return [step(0, None, st)]
+
+
 def is_range_index(path, full):
     return (path.endswith("::index") or path.endswith("::index_mut")) and ("ops::Range" in full) and ("[" in full or "Vec<" in full)
 
@@ -686,6 +749,7 @@ def standard_models():
         (lambda p, f: p.endswith("::into_iter") or p in ("core::slice::<impl [T]>::iter", "core::array::<impl [T; N]>::iter"), m_citer_new),
         (lambda p, f: p.endswith("Iterator>::next") and any(x in (f or "") for x in ("array::IntoIter<", "slice::Iter<", "ops::RangeFrom<", "ops::Range<", "iter::Zip<", "iter::Enumerate<")), m_citer_next),
         (lambda p, f: p == "std::iter::Iterator::zip", m_zip),
+        (lambda p, f: p.split("::")[-1] in ("find", "position", "any", "all") and ("iter::Iterator" in p), m_iter_search),
         (lambda p, f: p == "std::iter::Iterator::enumerate", m_enumerate),
         (lambda p, f: p in ("core::slice::<impl [T]>::get", "std::slice::<impl [T]>::get", "core::slice::<impl [T]>::get_mut", "std::slice::<impl [T]>::get_mut") and "::<usize>" in (f or ""), m_slice_get),
         (lambda p, f: p in ("std::cmp::PartialEq::ne", "core::cmp::PartialEq::ne"), m_partial_ne),
